@@ -191,8 +191,29 @@ def api_case(rec, pa, pb, bi, where, layout, chunk, tkind, seed, only=False, pre
     if prec == "i8":
         phi = np.array([[1.0, 2.0, 4.0], [3.0 + seed % 2, 7.0, 5.0]])
     da = xr.DataArray(phi.astype(np.float32 if prec in ("f4", "mixed") else np.int64 if prec == "i8" else np.float64), dims=["x", "zc"], name="heat")
-    if prec == "shared":
+    if prec in ("shared", "tdnone"):
         profs = [profs[0], profs[0]]
+    if prec == "tdnone":
+        if where != "outer":
+            return
+        # target_data omitted: the axis' own coordinate on the cell bounds is the target data
+        ds_n = xr.Dataset(coords={"zc": ("zc", np.arange(nz) + 0.5), "zo": ("zo", np.array(profs[0], dtype=float)), "x": ("x", [0, 1])})
+        with warnings.catch_warnings():
+            warnings.simplefilter("ignore")
+            g = Grid(ds_n, coords={"Z": {"center": "zc", "outer": "zo"}}, periodic=False, autoparse_metadata=False)
+    if prec == "metrics":
+        # a Grid that knows (uneven) cell thicknesses along the axis: the conservative transform is defined by the
+        # target_data values alone, metrics play no role
+        gm = _API_GRID.get("gm")
+        if gm is None:
+            ds_m = xr.Dataset(coords={"zc": ("zc", np.arange(nz) + 0.5), "zo": ("zo", np.arange(nz + 1.0)), "x": ("x", [0, 1])})
+            ds_m["dz_c"] = ("zc", [1.0, 2.0, 4.0])
+            ds_m["dz_o"] = ("zo", [0.5, 1.5, 3.0, 2.0])
+            with warnings.catch_warnings():
+                warnings.simplefilter("ignore")
+                gm = _API_GRID["gm"] = Grid(ds_m, coords={"Z": {"center": "zc", "outer": "zo"}}, periodic=False, autoparse_metadata=False,
+                                            metrics={("Z",): ["dz_c", "dz_o"]})
+        g = gm
     tdt = np.float32 if prec == "f4" else np.float64
     if where == "outer":
         td = xr.DataArray(np.array(profs, dtype=tdt), dims=["x", "zo"], name="dens")
@@ -211,15 +232,18 @@ def api_case(rec, pa, pb, bi, where, layout, chunk, tkind, seed, only=False, pre
         da, td = da.chunk({"x": tuple(chunk)}), (td.chunk({"x": tuple(chunk)}) if "x" in td.dims else td.chunk())
     bdt = np.float32 if prec == "f4" else np.float64
     target = np.array(bins, dtype=bdt) if tkind == "nd" else xr.DataArray(np.array(bins, dtype=bdt), dims=["rho"], name="rho")
-    newdim = "dens" if tkind == "nd" else "rho"
+    newdim = ("zo" if prec == "tdnone" else "dens") if tkind == "nd" else "rho"
     Ws = [R.overlap_weights(t, bins) for t in theta]
     nontriv = True
     rec.case(("api", pa, pb, bi, where, layout, tuple(chunk or ()), tkind, prec), nontriv, sample=case)
-    tol = 1e-9 if prec in ("f8", "i8", "shared") else 1e-5
+    tol = 1e-9 if prec in ("f8", "i8", "shared", "tdnone", "metrics") else 1e-5
     try:
         with warnings.catch_warnings():
             warnings.simplefilter("ignore")
-            r = g.transform(da, "Z", target, target_data=td, method="conservative")
+            if prec == "tdnone":
+                r = g.transform(da, "Z", target, method="conservative")
+            else:
+                r = g.transform(da, "Z", target, target_data=td, method="conservative")
             v = r.compute() if chunk else r
     except Exception as e:
         rec.violation("api", "raise:" + exc_sig(e), case, "array", f"{type(e).__name__}: {e}"[:200])
@@ -287,6 +311,10 @@ def api_cases(tier):
                 if pb == pa + 1:
                     layout, chunk, tkind = variants[-1]
                     out.append((pa, pb, bi, where, layout, chunk, tkind, "shared"))
+                    if where == "outer":
+                        out.append((pa, pb, bi, where, variants[0][0], None, variants[0][2], "tdnone"))
+                layout, chunk, tkind = variants[0]
+                out.append((pa, pb, bi, where, layout, chunk, tkind, "metrics"))
     return out
 
 
